@@ -230,6 +230,9 @@ impl<'a> W2<'a> {
         };
         self.fp.mix(crate::rng::fnv(&name) ^ (ci as u64) << 56);
         let prop = Self::prop_of(&self.clients[ci]);
+        // capacity-relative positions resolve against the addressed container; clients that do not
+        // announce their spare capacity see none
+        crate::w2_ops::set_spare(0);
         let (cc0, ab0) = (bump.chunk_capacity(), bump.allocated_bytes());
         let out: Option<OpOutcome> = match (&mut self.clients[ci], op) {
             (Client::V8(p), COp::V(o)) => p.exec_write(bump, o).or_else(|| p.exec_copy(bump, o)).or_else(|| Some(p.exec(bump, o))),
